@@ -8,6 +8,7 @@ Rip/Gen/EffectOrder.lean (order 30: EventLog::append is body, newline, flush und
 import Rip.Lemmas.Crash
 import Rip.Cex.C05
 import Rip.Gen.EffectOrder
+import Rip.Gen.LogEffects
 namespace Rip.Props.C05
 open Rip.Crash
 
@@ -77,5 +78,12 @@ list of the model's log part) -/
 theorem gen_log_append_order :
     (orderOf 30).filter (fun e => e == .fsWrite || e == .fsFlush) = [.fsWrite, .fsWrite, .fsFlush] ∧
     (orderOf 30).head? = some (.lock 5) ∧ (orderOf 30).getLast? = some (.unlock 5) := by decide
+
+/-- **obligation over the regenerated source**: `EventLog::append` writes the body, the newline and
+the flush unconditionally — for every frame kind. (A frame that is handed to subscribers while its
+bytes wait in the writer's buffer for some later frame's flush is not reproduced by a replay from
+disk, and is lost by a crash although its append had returned.) -/
+theorem gen_log_append_writes_unconditionally :
+    Rip.Gen.LogEffects.appendWrites = 3 ∧ Rip.Gen.LogEffects.appendWritesUnderACondition = 0 := by decide
 
 end Rip.Props.C05
